@@ -160,6 +160,16 @@ def check(case):
                     fail("read-back-differs:%s" % dt, "%r -> %s -> %r" % (value, f, back))
                 if same(l.get(tagname), value) is False:
                     fail("get-after-set-differs:%s" % dt, "%r -> %r" % (value, l.get(tagname)))
+                # deleting the tag and setting it again gives the same line (a deleted tag is as if it had never been there)
+                try:
+                    l.delete(tagname)
+                    if declared:
+                        l.set_datatype(tagname, declared)
+                    l.set(tagname, value)
+                    if str(l) != text:
+                        fail("set-delete-set-differs:%s" % dt, "%r then %r" % (text, str(l)))
+                except gfapy.Error as e:
+                    fail("set-after-delete-raises-%s:%s" % (type(e).__name__, dt), harness.short(e, 120))
         elif valid is False:
             if reported is None and vrep is None:
                 fail("unrepresentable-value-not-reported:%s" % dt, "%r written as %r" % (value, text))
